@@ -330,6 +330,19 @@ func (m *dMachine) eval(n *dnode, env *dEnv) *dv {
 			return v
 		}
 		return dB(!v.truthy())
+	case "pick": // a COMPUTED operator in tail position of a recursive function:
+		// (progn (defun pick (n) (if (<= n 0) (lambda (k) (+ k 100)) ((pick 0) n))) (pick k0))
+		v := m.eval(n.kids[0], env)
+		if v.k == dErr {
+			return v
+		}
+		if v.k != dInt {
+			return dE("not a number")
+		}
+		if v.i <= 0 {
+			return &dv{k: dFun}
+		}
+		return dI(v.i + 100)
 	case "cond": // (cond (k0 k1) (:else k2))
 		c := m.eval(n.kids[0], env)
 		if c.k == dErr {
@@ -391,6 +404,8 @@ func (n *dnode) src() string {
 		return "(" + strings.Join(parts, " ") + ")"
 	case "car", "cdr", "not":
 		return "(" + n.op + " " + k(0) + ")"
+	case "pick":
+		return "(progn (defun pick (n) (if (<= n 0) (lambda (k) (+ k 100)) ((pick 0) n))) (pick " + k(0) + "))"
 	case "cond":
 		return "(cond (" + k(0) + " " + k(1) + ") (:else " + k(2) + "))"
 	}
@@ -433,7 +448,7 @@ func (g *dGen) leafN(scope []string, menu int) *dnode {
 	return &dnode{op: "var", name: scope[c-4]}
 }
 
-var dProds = []string{"let", "app", "if", "setlet", "+", "list", "car", "and", "<", "counter", "cdr", "cons", "or", "not", "-", "=", "progn", "funcall", "letf", "let2", "let*", "adder", "cond", "tag", "setouter", "<=", "qsym", "true"}
+var dProds = []string{"let", "app", "if", "setlet", "+", "list", "car", "pick", "and", "<", "counter", "cdr", "cons", "or", "not", "-", "=", "progn", "funcall", "letf", "let2", "let*", "adder", "cond", "tag", "setouter", "<=", "qsym", "true"}
 
 // gen builds an expression of at most the given depth; nprods limits the productions offered.
 func (g *dGen) gen(depth int, scope []string, nprods int) *dnode {
@@ -476,7 +491,7 @@ func (g *dGen) gen(depth int, scope []string, nprods int) *dnode {
 		return &dnode{op: op, name: name, kids: []*dnode{sub(scope), sub(scope)}}
 	case "+", "-", "<", "=", "<=", "cons", "and", "or", "list", "progn":
 		return &dnode{op: op, kids: []*dnode{sub(scope), sub(scope)}}
-	case "car", "cdr", "not":
+	case "car", "cdr", "not", "pick":
 		return &dnode{op: op, kids: []*dnode{sub(scope)}}
 	case "counter":
 		return &dnode{op: op, kids: []*dnode{sub(scope), sub(append(with("n"), "n"))}}
